@@ -752,3 +752,55 @@ func returnsOnlyField(c *an.Ctx, src *an.FuncSrc, field string) bool {
 	})
 	return ok && n > 0
 }
+
+func init() {
+	old := All["C05"].Run
+	All["C05"].Run = func(c *an.Ctx) {
+		old(c)
+		c05flushNoticeIsRendezvous(c)
+	}
+	All["C05"].Rules += " R13"
+	addLevel("C05", "The flush notification to the raft node is a rendezvous (unbuffered channel): the flush re-enables the advance of the committed index only after the snapshot goroutine has taken the notification.")
+}
+
+// c05flushNoticeIsRendezvous — C05.R13.  writeSnapshot freezes CommittedIndex (RaftFlag=0), swaps
+// the tables, sends on RaftFlushC and then sets RaftFlag=1 (C05.R6 checks that order).  The order
+// protects the snapshot index only if the send returns after the receiver took the value, i.e. if
+// the channel has no buffer; with a buffer the send returns at once and batches applied to the new
+// table advance the index that the snapshot then persists.
+func c05flushNoticeIsRendezvous(c *an.Ctx) {
+	const RL = "lib/raftlog"
+	r := c.Rule("C05.R13", "K-PROVENANCE", RL+":SnapShotter.RaftFlushC is created without a buffer wherever a SnapShotter is built outside tests")
+	fld := obj(r, RL+":SnapShotter.RaftFlushC")
+	if fld == nil {
+		return
+	}
+	n := 0
+	for _, s := range c.P.StoresTo(fld) {
+		if s.Caller == nil || s.Rhs == nil || (s.How != "literal" && s.How != "assign") {
+			continue
+		}
+		if strings.HasSuffix(c.P.Fset.Position(s.Node.Pos()).Filename, "_test.go") {
+			continue
+		}
+		n++
+		ce, ok := ast.Unparen(s.Rhs).(*ast.CallExpr)
+		if !ok {
+			r.Fail(an.CallerName(s.Caller)+": RaftFlushC source", c.P.Pos(s.Node.Pos()), "RaftFlushC is set from %s, not from make(chan bool): its buffer size is not visible here", types.ExprString(s.Rhs))
+			continue
+		}
+		id, ok := ce.Fun.(*ast.Ident)
+		if !ok || id.Name != "make" {
+			r.Fail(an.CallerName(s.Caller)+": RaftFlushC source", c.P.Pos(s.Node.Pos()), "RaftFlushC is set from %s, not from make(chan bool)", types.ExprString(s.Rhs))
+			continue
+		}
+		if len(ce.Args) >= 2 {
+			tv, ok := s.Caller.Pkg.TypesInfo.Types[ce.Args[1]]
+			if !ok || tv.Value == nil || tv.Value.String() != "0" {
+				r.Fail(an.CallerName(s.Caller)+": RaftFlushC buffered", c.P.Pos(s.Node.Pos()), "RaftFlushC is created with a buffer (%s): the flush's send no longer waits for the snapshot goroutine, RaftFlag returns to 1 at once and the raft snapshot index can cover batches that are not in the flushed table", types.ExprString(ce.Args[1]))
+			}
+		}
+	}
+	r.AddSites(n)
+	r.Floor(1, "constructions of SnapShotter.RaftFlushC")
+}
